@@ -143,6 +143,20 @@ class Paint(ABC):
                     )
                 )
 
+    def depth_first(self) -> Generator[PaintTraverseContext, None, None]:
+        # pre-order, i.e. paint (z-)order for the leaves
+        frontier = [PaintTraverseContext((), self, Affine2D.identity())]
+        while frontier:
+            context = frontier.pop(0)
+            yield context
+            transform = Affine2D.compose_ltr(
+                (context.transform, context.paint.gettransform())
+            )
+            frontier[0:0] = [
+                PaintTraverseContext(context.path + (context.paint,), paint, transform)
+                for paint in context.paint.children()
+            ]
+
     def children(self) -> Iterable["Paint"]:
         return ()
 
